@@ -321,7 +321,7 @@ impl<'a> Cluster<'a> {
             let good = out.first() == Some(exp.as_slice());
             let (t, n) = (self.t, self.n);
             self.rec.expect("C08", "combine-exact", good, || {
-                format!("t={} n={} ids={:?} | recombined signature differs from the whole-key signature: got {:?}", t, n, idl, out.kind())
+                format!("from_shares | t={} n={} ids={:?}: recombined signature differs from the whole-key signature: got {:?}", t, n, idl, out.kind())
             });
             if good {
                 self.combined[r] = Some(exp);
@@ -574,7 +574,7 @@ impl<'a> App for Cluster<'a> {
                                 self.rec.probe("byzantine-share-verdict-not-constrained");
                             } else {
                                 self.rec.expect("C08", "bad-partial-rejected", !v1.is_ok() && !v2.is_ok(), || {
-                                    format!("byz mode {:?} | altered partial from signer {} verified: {:?} / {:?}", self.byz.get(&claimed), claimed, v1, v2)
+                                    format!("byz mode {:?} | altered partial from signer {} verified: {} / {}", self.byz.get(&claimed), claimed, v1.kind(), v2.kind())
                                 });
                             }
                             if self.verify && !(v1.is_ok() && v2.is_ok()) {
@@ -878,26 +878,26 @@ fn run_subsets(plan: &Plan, lib: &dyn Lib, g: Grp, rec: &mut Rec, exhaustive: bo
                 rec.probe("subset-exactly-t");
             }
             rec.expect("C08", "combine-exact", so.first() == Some(whole.as_slice()), || {
-                format!("t={} n={} ids={:?} | Signature::from_shares differs from whole-key signature: {:?}", t, n, idl, so.kind())
+                format!("Signature::from_shares | t={} n={} ids={:?}: differs from whole-key signature: {:?}", t, n, idl, so.kind())
             });
             rec.expect("C08", "pk-recombine", po.first() == Some(d.pk.as_slice()), || {
-                format!("t={} n={} ids={:?} | PublicKey::from_shares differs from the public key: {:?}", t, n, idl, po.kind())
+                format!("PublicKey::from_shares | t={} n={} ids={:?}: differs from the public key: {:?}", t, n, idl, po.kind())
             });
             rec.expect("C08", "key-recombine", ko.first() == Some(d.sk.as_slice()), || {
-                format!("t={} n={} ids={:?} | SecretKey::combine differs from the key: {:?}", t, n, idl, ko.kind())
+                format!("SecretKey::combine | t={} n={} ids={:?}: differs from the key: {:?}", t, n, idl, ko.kind())
             });
         } else {
             if k + 1 == t {
                 rec.probe("subset-t-minus-1");
             }
             rec.expect("C08", "below-threshold", so.first() != Some(whole.as_slice()), || {
-                format!("t={} n={} ids={:?} | fewer than t partials produced the whole-key signature", t, n, idl)
+                format!("sig | t={} n={} ids={:?}: fewer than t partials produced the whole-key signature", t, n, idl)
             });
             rec.expect("C08", "below-threshold", po.first() != Some(d.pk.as_slice()), || {
-                format!("t={} n={} ids={:?} | fewer than t pk shares produced the public key", t, n, idl)
+                format!("pk | t={} n={} ids={:?}: fewer than t pk shares produced the public key", t, n, idl)
             });
             rec.expect("C08", "below-threshold", ko.first() != Some(d.sk.as_slice()), || {
-                format!("t={} n={} ids={:?} | fewer than t shares produced the key", t, n, idl)
+                format!("key | t={} n={} ids={:?}: fewer than t shares produced the key", t, n, idl)
             });
             if k <= 1 {
                 rec.expect("C08", "malformed-sets-error", !so.is_ok() && !po.is_ok() && !ko.is_ok(), || {
